@@ -113,6 +113,11 @@ func (dm *DMap) putOnReplicaFragment(e *env) error {
 	f.Lock()
 	defer f.Unlock()
 
+	if f.isClosed() {
+		// Wiped out by the janitor while we were waiting for the lock. Try again with a fresh fragment.
+		return dm.putOnReplicaFragment(e)
+	}
+
 	err = f.storage.PutRaw(e.hkey, e.value)
 	if errors.Is(err, storage.ErrKeyTooLarge) {
 		err = ErrKeyTooLarge
@@ -299,6 +304,11 @@ func (dm *DMap) putOnCluster(e *env) error {
 	e.fragment = f
 	f.Lock()
 	defer f.Unlock()
+
+	if f.isClosed() {
+		// Wiped out by the janitor while we were waiting for the lock. Try again with a fresh fragment.
+		return dm.putOnCluster(e)
+	}
 
 	if err = dm.checkPutConditions(e); err != nil {
 		return err
